@@ -6,7 +6,8 @@ Streams
          (no instant skipped, none repeated)
   parse  TrigTime.parse_date_time / parse_time_offset directly (calendar layer, unit table)
   ha     running @time_trigger functions on the virtual clock under both subsystems: trigger_time and run time of every
-         run against the successor chain, startup / shutdown entries
+         run against the successor chain, startup / shutdown entries; functions that also carry @state_trigger(state_hold=h)
+         whose hold is started and abandoned while the timer is pending
   dst    running cron() / once() / period() functions for 50-62 h across the fall-back and the spring-forward change of
          America/Los_Angeles, both subsystems, on a DST-aware wall clock (naive local time of a UTC instant that advances with
          the virtual loop): every run must happen when the wall clock reads its trigger_time, period() runs equally spaced
@@ -47,7 +48,12 @@ RULE = ("next: lists of 1-3 specifications generated from the documented grammar
         "corpus): 24:00-like times, 29 Feb / 31 Dec / 1 Jan, sunrise / sunset offsets in every unit name, period() with interval == / > window, "
         "end == start, zero / negative interval, crontab ranges / steps / lists / names / both day fields / impossible days / out-of-range "
         "values, duplicate entries and several spellings of one instant, each evaluated at, 1 us before and after its 1st..5th occurrence and "
-        "at start-up; upper-case / capitalised / blank-padded spellings everywhere.  Non-trivial: every case has at least one specification; "
+        "at start-up; upper-case / capitalised / blank-padded spellings everywhere; sun-window (stream next, 16 cases): period(start, interval, end) "
+        "with undated sunrise / sunset (+- offset) start / end - same-day and over-midnight windows - asked inside today's window, after it ended, "
+        "after midnight inside a window still open from the evening before and before today's window, oracle per date from astral; state-hold "
+        "(stream ha, 3 functions x both subsystems): functions carrying @state_trigger(..., state_hold=h) next to @time_trigger, the state "
+        "trigger becoming true (hold deadline before the next instant) and false again during the hold between the instants and after the "
+        "last one, then a hold that completes - every time run's trigger_time against the chain, exactly one state run.  Non-trivial: every case has at least one specification; "
         "distinct by payload.")
 ASSUMPTIONS = [
     "croniter.get_next, astral sunrise/sunset and the zone offset (dt_util.as_local) are parameters of the model (cronNext, sun, "
@@ -210,6 +216,10 @@ def strict_class(s):
 
     def timeonly(d):
         return d[0] == "at" and d[1] == "none" and d[2] not in ("sunrise", "sunset")
+
+    def sunonly(d):
+        # undated sunrise / sunset with an offset that stays inside the day (C06-F4 is about multi-day offsets)
+        return d[0] == "at" and d[1] == "none" and d[2] in ("sunrise", "sunset") and abs(off_us(d[3])) <= 6 * 3600 * 1000000
     if s["kind"] == "cron":
         return True
     if s["kind"] == "once":
@@ -225,6 +235,8 @@ def strict_class(s):
             start = (oracle_dt(s["s"], EPOCH, EPOCH)[0] - EPOCH) // US
             return 0 <= start < per and (86400 * 1000000) % per == 0
         return False
+    if (sunonly(s["s"]) or sunonly(s["e"])) and all(timeonly(d) or sunonly(d) for d in (s["s"], s["e"])):
+        return True          # period(sunrise, 1h, sunset), period(sunset, 2h, sunrise): each day's window from that day's sun times
     return (dated(s["s"]) and dated(s["e"])) or (timeonly(s["s"]) and timeonly(s["e"]))
 
 
@@ -334,7 +346,9 @@ def oracle_next1(s, now, startup, tabs, cid=None):
         start = oracle_dt(s["s"], day, startup, 0, sun)[0]
         stop = oracle_dt(s["e"], day, startup, 0, sun)[0]
         if stop < start:
-            stop += DAY
+            # the window is open across midnight: it ends at the end time of the FOLLOWING day (for a clock time that is
+            # stop + 24 h; tomorrow's sunrise is not today's plus 24 h)
+            stop = oracle_dt(s["e"], day + DAY, startup, 0, sun)[0]
         t = progression_after(start, per, now, stop)
         if now == startup == start:
             t = start
@@ -782,6 +796,71 @@ def ha_boundary_corpus():
             for legacy in (True, False) for fi in range(len(funcs))]
 
 
+def sun_window_cases(rng):
+    """stream next, 16 cases: period(start, interval, end) with UNDATED sunrise / sunset (+- offset) start and end, asked inside
+    today's window, after it has ended (the answer lies in tomorrow's window), after midnight inside a window that is open across
+    midnight (period(sunset, 2h, sunrise): ticks anchored at YESTERDAY's sunset, end = today's sunrise) and in the small hours
+    before today's window.  The oracle takes every day's window from astral for that date (seeded change C06_8 moved today's
+    window by whole days instead)."""
+    D = dt.datetime
+
+    def sr(off=None):
+        return ["at", "none", "sunrise", off]
+
+    def ss(off=None):
+        return ["at", "none", "sunset", off]
+    shapes = [(sr(), [1, "1", "h"], ss()), (ss(), [1, "2", "h"], sr()), (ss([-1, "1", "h"]), [1, "45", "min"], sr([1, "30", "min"])),
+              rng.choice([(sr([1, rng.choice(["15", "20.5"]), "min"]), [1, "90", "min"], ss([-1, "0.5", "h"])),
+                          (ss([1, "10", "min"]), [1, rng.choice(["1", "2.5"]), "hours"], ["at", "none", ["hms", 5, 30, 0], None]),
+                          (["at", "none", ["hms", 22, 15, 0], None], [1, "50", "min"], sr([-1, rng.choice(["5", "40"]), "m"]))])]
+    days = [D(2024, 9, 1), D(2024, 3, 18), D(2023, 12, 20), D(2024, 6, 21), D(2025, 4, 2), D(2024, 10, 12)]
+    rng.shuffle(days)
+    out = []
+    for (s_, p_, e_), day in zip(shapes, days):
+        spec = {"kind": "period", "s": s_, "per": p_, "e": e_}
+        startup = day - 3 * DAY
+        nows = [day + dt.timedelta(hours=13), day + dt.timedelta(hours=21, minutes=rng.randrange(60)),
+                day + DAY + dt.timedelta(hours=1, minutes=rng.randrange(60), seconds=24, microseconds=rng.choice([0, 250000])),
+                day + DAY + dt.timedelta(hours=4, minutes=rng.randrange(30))]
+        style = rng.choice([0, 512, rng.randrange(8192)])
+        for now in nows:
+            out.append(Case({"kind": "next", "specs": [spec], "strs": [render_tspec(spec, style)], "now": us_of(now), "startup": us_of(startup),
+                             "as_str": rng.random() < 0.5, "rel": "sun-window"}, None, tags=("next", "corpus", "sun-window", "period")))
+    return out
+
+
+def ha_hold_cases(rng):
+    """stream ha, both subsystems, 3 functions each: a function that carries `@state_trigger(expr, state_hold=h)` NEXT TO its
+    @time_trigger.  While the function waits for its next instant the state trigger becomes true (the hold starts, its deadline
+    lies BEFORE the next instant) and false again half-way through the hold - nothing may run, and the next time run must happen at
+    the denoted instant with that instant as trigger_time (seeded change C06_7 handed it the abandoned hold's deadline).  One
+    function repeats the pulse after its last instant (the specification is exhausted) and then keeps the state true: exactly one
+    state run must follow - the trigger must not have died."""
+    def t(sec):
+        x = BASE + dt.timedelta(seconds=sec)
+        return ["at", "none", ["hms", x.hour, x.minute, x.second * 1000000 + x.microsecond], None]
+    T = rng.choice([9, 10, 11])
+    h = [rng.choice([1.5, 2.0, 0.75]) for _ in range(3)]
+    g = rng.choice([0.1, 0.35, 0.6])           # off the 1/4 s grid of the instants
+    funcs = [
+        # once(T): pulse before T; after T (nothing left to wait for) a second abandoned pulse, then a hold that completes
+        {"specs": [{"kind": "once", "d": t(T)}], "hold": h[0], "want_state": 1,
+         "pulses": [[T - 6 + g, T - 6 + g + h[0] / 2], [T + 2 + g, T + 2 + g + h[0] / 2], [T + 5 + g, None]]},
+        # period(12:00:02, 7 s): instants 2, 9, 16, 23 - a pulse in two of the gaps
+        {"specs": [{"kind": "period", "s": t(2), "per": [1, "7", "sec"], "e": None}], "hold": h[1], "want_state": 0,
+         "pulses": [[10 + g, 10 + g + h[1] / 2], [(a := rng.choice([17, 19])) + g, a + g + h[1] / 4]]},
+        # two entries: once(12:00:05) and once(now + 14.6 s) - pulses before the first and between the two
+        {"specs": [{"kind": "once", "d": t(5)}, {"kind": "once", "d": ["now", [1, "14.6", "s"]]}], "hold": h[2], "want_state": 0,
+         "pulses": [[1 + g, 1 + g + h[2] / 2], [7 + g, 7 + g + h[2] / 2], [10 + g, 10 + g + h[2] / 3]]},
+    ]
+    for f in funcs:
+        f["style"] = 0
+        f["startup"] = f["shutdown"] = False
+    scen = {"id": "hold", "horizon": 26, "funcs": funcs}
+    return [Case({"kind": "ha", "legacy": legacy, "scen": scen, "fi": fi}, None, tags=("ha", "corpus", "state-hold", "legacy" if legacy else "new"))
+            for legacy in (True, False) for fi in range(len(funcs))]
+
+
 def _rel(rng, t):
     """start-up relative offsets end in .1 / .6: they never coincide with the absolute instants on the 1/4 s grid (the
     start-up time of a running trigger is BASE plus a few microseconds of dt_now() ticks)"""
@@ -805,7 +884,7 @@ def _near(rng, t, period=False):
 
 def gen_cases(rng, tier, search):
     k = {"quick": 1, "thorough": 8}[tier] * (3 if search else 1)
-    return corpus_cases() + dst_corpus() + ha_corpus() + ha_boundary_corpus() + gen_boundary(rng, k) + gen_next(rng, 360 * k) + gen_parse(rng, 240 * k) + gen_ha(rng, 6 * k) + gen_dst(rng, 5 * k) + lag_corpus() + gen_lag(rng, 4 * k)
+    return corpus_cases() + dst_corpus() + ha_corpus() + ha_boundary_corpus() + sun_window_cases(rng) + ha_hold_cases(rng) + gen_boundary(rng, k) + gen_next(rng, 360 * k) + gen_parse(rng, 240 * k) + gen_ha(rng, 6 * k) + gen_dst(rng, 5 * k) + lag_corpus() + gen_lag(rng, 4 * k)
 
 
 # ------------------------------------------------------------------------------------------------ running the real code
@@ -892,6 +971,8 @@ def ha_script(scen):
             dec = "@time_trigger"
         else:
             dec = "@time_trigger(" + ", ".join(json.dumps(a if isinstance(a, str) else render_tspec(f["specs"][a], f["style"])) for a in argv) + ")"
+        if f.get("hold"):
+            lines.append(f"@state_trigger(\"pyscript.c06_v{fi} == '1'\", state_hold={f['hold']})")
         lines += [dec, f"def f{fi}(**kw):", f"    rec('run', {fi}, tt(kw), kw.get('trigger_type'))", ""]
     return "\n".join(lines) + "\n"
 
@@ -904,6 +985,15 @@ def _run_scenario(arg):
     Function.register({"rec": lambda *a: early.append([0.0] + list(a)), "vtime": lambda: 0.0})
 
     async def body(env):
+        stim = []
+        for fi, f in enumerate(scen["funcs"]):
+            for on, off in f.get("pulses", []):
+                stim.append((on, fi, "1"))
+                if off is not None:
+                    stim.append((off, fi, "0"))
+        for ts, fi, v in sorted(stim):
+            await W._goto(env, ts)
+            env.hass.states.async_set(f"pyscript.c06_v{fi}", v)
         await W._goto(env, scen["horizon"])
         n_before = len(env.records)
         env.remove("c06.py")
@@ -960,9 +1050,12 @@ def run_impl(cases):
             recs, n_live = res
             fi = c.payload["fi"]
             mine = [(i, r) for i, r in enumerate(recs) if len(r) >= 4 and r[1] == "run" and r[2] == fi]
-            parts, late = [], []
+            parts, late, state_runs = [], [], []
             for i, r in mine:
                 tt = r[3]
+                if len(r) > 4 and r[4] == "state":
+                    state_runs.append(round(r[0], 3))      # (judged by the verdict; the model's chain has time runs only)
+                    continue
                 if tt in ("startup", "shutdown"):
                     parts.append(tt + ("" if (tt == "shutdown") == (i >= n_live) else "@wrong-phase"))
                     continue
@@ -971,6 +1064,7 @@ def run_impl(cases):
                 if abs((t - BASE).total_seconds() - r[0]) > 0.02:
                     late.append(f"{tt}@{r[0]}")
             c.impl = " ".join(parts) + ("" if not late else " late=" + ",".join(late))
+            c.payload["_state_runs"] = state_runs
     for c in cases:
         c.line = make_line(c)
 
@@ -1483,6 +1577,10 @@ def verdict(c):
             return "run happened away from its trigger_time: " + c.impl.split(" late=")[1][:80]
         if c.impl != want:
             return f"{'legacy' if p['legacy'] else 'new'}: runs [{c.impl[:200]}] expected [{want[:200]}]"
+        f = p["scen"]["funcs"][p["fi"]]
+        if f.get("hold") and len(p.get("_state_runs", [])) != f["want_state"]:
+            return (f"{'legacy' if p['legacy'] else 'new'}: state-hold {len(p.get('_state_runs', []))} state runs at {p.get('_state_runs')} expected "
+                    f"{f['want_state']} (abandoned holds run nothing; a completed hold runs once, also after the last time instant)")
         return None
     if p["kind"] in ("offset", "parse"):
         if c.impl != want:
@@ -1696,6 +1794,11 @@ def extra_coverage(cases):
             f = p["scen"]["funcs"][p["fi"]]
             if "boundary" in c.tags:
                 bump(cov["boundary_ha_functions"], "legacy" if p["legacy"] else "new")
+            if f.get("hold"):
+                cov.setdefault("state_hold_functions", {"abandoned_holds": 0, "completed_holds_run": 0, "functions": 0})
+                cov["state_hold_functions"]["functions"] += 1
+                cov["state_hold_functions"]["abandoned_holds"] += sum(1 for _, off in f["pulses"] if off is not None)
+                cov["state_hold_functions"]["completed_holds_run"] += len(p.get("_state_runs", []))
             cov["startup_shutdown_functions"] += int(f["startup"] or f["shutdown"])
             if not f["specs"]:
                 key = "bare" if argv_of(f) is None else ",".join(argv_of(f))
@@ -1705,6 +1808,8 @@ def extra_coverage(cases):
         if p["kind"] != "next":
             continue
         now = dt_of(p["now"])
+        if "sun-window" in c.tags:
+            cov["sun_window_period_cases"] = cov.get("sun_window_period_cases", 0) + 1
         if len(c.tags) > 2 and c.tags[1] == "boundary":
             bump(cov["boundary_categories"], c.tags[2])
             bump(cov["boundary_evaluation_points"], p.get("rel", "-"))
